@@ -86,8 +86,31 @@ func (p *Prog) keyLeaves(v ssa.Value, depth int) []ssa.Value {
 			if !ok {
 				return []ssa.Value{nil}
 			}
+			// the values behind the verbs: the elements of the variadic argument
+			var vargs []ssa.Value
+			if len(x.Call.Args) > 1 {
+				if sl, ok := x.Call.Args[1].(*ssa.Slice); ok {
+					if al, ok := sl.X.(*ssa.Alloc); ok {
+						if at, ok := deref(al.Type()).Underlying().(*types.Array); ok {
+							vargs = make([]ssa.Value, at.Len())
+							for _, ref := range *al.Referrers() {
+								if ia, ok := ref.(*ssa.IndexAddr); ok {
+									if i, ok := constInt(ia.Index); ok {
+										for _, r2 := range *ia.Referrers() {
+											if st, ok := r2.(*ssa.Store); ok && int(i) < len(vargs) {
+												vargs[i] = stripConv(st.Val)
+											}
+										}
+									}
+								}
+							}
+						}
+					}
+				}
+			}
 			var out []ssa.Value
 			rest := f
+			nverb := 0
 			for {
 				i := strings.IndexByte(rest, '%')
 				if i < 0 || i+1 >= len(rest) {
@@ -96,7 +119,12 @@ func (p *Prog) keyLeaves(v ssa.Value, depth int) []ssa.Value {
 				if i > 0 {
 					out = append(out, ssa.NewConst(constant.MakeString(rest[:i]), types.Typ[types.String]))
 				}
-				out = append(out, x) // one variable piece per verb
+				var piece ssa.Value = x // one variable piece per verb
+				if nverb < len(vargs) && vargs[nverb] != nil {
+					piece = vargs[nverb]
+				}
+				out = append(out, piece)
+				nverb++
 				rest = rest[i+2:]
 			}
 			if rest != "" {
@@ -157,7 +185,25 @@ func (p *Prog) keyConstruction(v ssa.Value) (desc string, framed bool) {
 	if nvars < 2 {
 		framedOK = false
 	}
-	return strings.Join(parts, "+"), framedOK
+	// a separator alone is not enough when the first part can contain it (field names are arbitrary, `n-a`):
+	// the first variable part must be preceded by its own length and a constant that is not a digit
+	lengthFramed := false
+	for i := 0; i+2 < len(leaves); i++ {
+		if leaves[i] == nil || leaves[i+2] == nil {
+			continue
+		}
+		lv := lenOf(stripConv(leaves[i]))
+		if lv == nil {
+			continue
+		}
+		if sc, ok := constString(leaves[i+1]); !ok || sc == "" || (sc[0] >= '0' && sc[0] <= '9') {
+			continue
+		}
+		if stripConv(leaves[i+2]) == stripConv(lv) {
+			lengthFramed = true
+		}
+	}
+	return strings.Join(parts, "+"), framedOK && lengthFramed
 }
 
 func ruleChunkKey(p *Prog, r *Result) {
@@ -185,7 +231,7 @@ func ruleChunkKey(p *Prog, r *Result) {
 			n++
 			d, framed := p.keyConstruction(k)
 			descs = append(descs, d)
-			r.add(framed, fmt.Sprintf("%s|key#%d", p.FName(fn), n), p.InstrPos(in), "chunk cache key "+d+" must separate the alias name from the chunk key with a constant")
+			r.add(framed, fmt.Sprintf("%s|key#%d", p.FName(fn), n), p.InstrPos(in), "chunk cache key "+d+" must give the length of the field name, a constant, the name, a constant and the chunk's first key (a separator alone lets names that contain it collide)")
 		})
 	}
 	same := true
